@@ -27,6 +27,8 @@ ASSUMPTIONS = ["every printbuf append succeeds (allocation failure is C08, print
                "C locale (locale independence is C14)",
                "libc: snprintf(\"%.17g\") produces the shape `g17Shape` and strtod reads the emitted text back to the same double - hypotheses of the "
                "theorems, checked against glibc and the exact Lean reference (Libc/Dbl.lean) on every double of every run",
+               "roundtrip is a theorem about the tokener model of C01 (Model/Tokener.lean, tied to json_tokener.c by the C01/C03/C04 correspondence runs) under "
+               "the libc hypotheses LibcSpec of Props/C01; this check additionally re-parses every generated text with the real json_tokener (`rt` op)",
                "retained number text (json_object_new_double_s) is inside the property only when it is an RFC 8259 number with a fraction or exponent whose "
                "value is the stored double - what the tokener attaches to a parsed double"]
 TRUSTED = ["Spec/Rfc8259.lean is the RFC 8259 grammar (by inspection)", "Python's json module as a second RFC 8259 parser (strict mode, constants refused)",
@@ -47,20 +49,23 @@ MANIFEST = dict(
          "ser_escape_items (the escape loop never faults and emits exactly one specified piece per input byte, for all 256 byte values; the pieces are RFC "
          "string items that denote the bytes), ser_no_fault, ser_no_nul + ser_strlen_eq_length (for ALL trees and libc outputs: no NUL in the text, strlen = "
          "reported length), ser_double_post (for every %.17g-shaped text and both NOZERO values: no buffer overrun, output = text or text+\".0\", NOZERO is the "
-         "identity), ser_is_doc (the colour-stripped output is Doc.text of the explicitly constructed RFC 8259 document docOf, which is well-formed; string bytes "
-         ">= 0x80 are copied verbatim so the text is RFC 8259 exactly when strings are UTF-8), ser_denotes (that document denotes the tree: ints by value, doubles "
+         "identity), ser_is_doc (the colour-stripped output is Doc.text of the explicitly constructed RFC 8259 document docOf, which is well-formed, for ANY string "
+         "bytes), ser_utf8_iff / ser_rfc8259 (string bytes >= 0x80 are copied verbatim: the text is well-formed UTF-8, hence RFC 8259, exactly when every string "
+         "and key of the tree is - proved with utf8Valid run as an automaton), ser_denotes (that document denotes the tree: ints by value, doubles "
          "by bit pattern under the named libc hypothesis strtod(emitted text) = d, strings by bytes, members in order), ser_flags_ws_only (any two flag words give "
-         "the same token values; identical token spellings when NOSLASHESCAPE agrees), roundtrip_of_parse_valid (RoundtripStatement - re-parse with depth 32 "
-         "succeeds at the end of the text with an equal tree and re-serialization reproduces the bytes - follows from C01's parse_valid, carried as the named "
-         "hypothesis ParseValidHyp until Props/C01 provides it) and roundtrip_partial (null/true/false proved on the tokener machine itself). The model is tied "
+         "the same token values; identical token spellings when NOSLASHESCAPE agrees), roundtrip (RoundtripStatement, nothing partial: for every flag word without COLOR and every tree "
+         "nested below the tokener depth 32, json_tokener_parse_ex(new_ex(32), text, -1) on the tokener model succeeds at the end of the text without fault, the "
+         "tree it returns equals the original - valEq, hence C09's SemEq, the relation json_object_equal decides - and re-serializing it reproduces the text byte "
+         "for byte; derived from ser_is_doc + C01's parse_valid for every libc meeting the named hypotheses LibcSpec) and roundtrip_literals (a hypothesis-free "
+         "instance evaluated on the machine with the reference libc). The model is tied "
          "to the source by literals and statement shapes regenerated from json_object.c on every run (colour escapes, json_hex_chars, buffer sizes, the \".0\" "
          "guard, the NOZERO loop condition, the stored-length string call: src_shape) and by a differential run of model, specification (Lean RFC 8259 reader + "
          "docOf + denote), Python's json module and the ASan/UBSan-built implementation on generated trees x flags, including re-parse by json_tokener, "
          "json_object_equal, re-serialization, and glibc %.17g/strtod against the exact Lean reference.",
     note="Trusted: Lean kernel + propext/Classical.choice/Quot.sound; Spec/Rfc8259.lean as the reading of RFC 8259; tools/extract; harness/ser.c + Driver/Ser.lean; "
          "glibc snprintf/strtod (hypotheses g17Shape / roundTrips, compared with Libc/Dbl.lean on every double of every run); printbuf appends succeed (C08/C19). "
-         "The model is hand-written: theorems are about the model, the correspondence run is testing. roundtrip for strings, numbers and containers rests on C01's "
-         "parse_valid (hypothesis ParseValidHyp) and, until that is closed, on the differential `rt` runs. NaN/Infinity, custom double formats "
+         "The models (serializer here, tokener of C01) are hand-written: theorems are about the models, the correspondence runs are testing. roundtrip imports "
+         "Props/C01.parse_valid and carries its libc hypotheses LibcSpec (strtoll/strtoull/strtod on number texts). NaN/Infinity, custom double formats "
          "(json_c_set_serialization_double_format), custom serializers and junk retained text are outside the property (model correspondence only).",
     technique="Lean 4 proof (per-byte refinement of the escape loop, buffer-level lemmas for the double post-processing, mutual induction over trees against an "
               "RFC 8259 grammar datatype) + four-way correspondence run (implementation / Lean model / Lean specification / Python json)",
